@@ -124,6 +124,21 @@ func c18Value(f universe.Field, side string, salt string, variant int) reflect.V
 				if !isTo {
 					v = ap.ItemCollection{same("y")}
 				}
+			case 8: // to's list is shorter than from's and has spare capacity (it was built by appends): storage that is reused must be filled
+				v = append(make(ap.ItemCollection, 0, 8), same("t0"))
+				if !isTo {
+					v = long(3, false, false)
+				}
+			case 9: // to's list is longer than from's and has spare capacity
+				v = append(make(ap.ItemCollection, 0, 8), same("t0"), same("t1"), same("t2"), same("t3"))
+				if !isTo {
+					v = long(2, true, false)
+				}
+			case 10: // an empty, non-nil list with capacity in to
+				v = make(ap.ItemCollection, 0, 4)
+				if !isTo {
+					v = long(2, false, false)
+				}
 			default:
 				return reflect.Value{}
 			}
@@ -540,6 +555,20 @@ func c18Run(c *engine.Ctx) {
 	for _, v := range []struct{ dim, id string }{{"scheme", "http://example.com/users/1"}, {"host-case", "https://EXAMPLE.com/users/1"}, {"trailing-slash", "https://example.com/users/1/"},
 		{"fragment", "https://example.com/users/1#main"}, {"identical", base}} {
 		refuse("equivalent-id-"+v.dim, good, side{"*Object(Note) id=" + v.id, obj(v.id, "Note")}, false)
+	}
+	// pairs of ids that are NOT equivalent although a shortcut says so: ids without "://" that differ only in their first bytes, ids that
+	// differ only in the byte before a fragment after multi-byte characters, in one character that a bit-trick fold identifies, in a
+	// query that one side lacks, in the root spelled with a query
+	for k, pr := range [][2]string{{"urn:x:1", "arn:x:1"}, {"ab", "cd"}, {"x", "y"}, {"acct:ann@example.com", "bcct:ann@example.com"}, {"as:Public", "bs:Public"},
+		{"tag:example.com,2024:1", "tbg:example.com,2024:1"}, {"https://example.com/\u00e91#main", "https://example.com/\u00e92#main"},
+		{"https://example.com/\u65e5\u672c/1#k", "https://example.com/\u65e5\u672c/2#k"}, {"https://example.com/u/@x", "https://example.com/u/`x"},
+		{"https://example.com/u/[1]", "https://example.com/u/{1}"}, {"https://example.com/u/a_b", "https://example.com/u/a\x7fb"},
+		{"https://example.com/u/1?", "https://example.com/u/1?x=1"}, {"https://example.com", "https://example.com/?x=1"}} {
+		pr := pr
+		a, b := side{"*Object(Note) id=" + pr[0], obj(pr[0], "Note")}, side{"*Object(Note) id=" + pr[1], obj(pr[1], "Note")}
+		refuse(fmt.Sprintf("id-near-pair-%d", k), a, b, true)
+		refuse(fmt.Sprintf("id-near-pair-%d-reversed", k), b, a, true)
+		refuse(fmt.Sprintf("id-near-pair-%d-self", k), a, a, false)
 	}
 	// every ordered pair of distinct vocabulary names, each side built with the struct the vocabulary assigns to its name:
 	// `to` typed differently from `from` must be refused whatever the two types are
